@@ -33,7 +33,7 @@ for d in sorted(glob.glob(V+'/seeded/C*')):
         m=re.match(r'\s+(VIOLATED|UNDECIDED) (\S+) (.+?) at \S+ \[',line)
         if m:
             p=m.group(2).split('.')[0]
-            if not p.startswith('C'): p='load'
+            if not p.startswith('C'): p='floor-or-anchor'
             caught.setdefault(p,[]).append(m.group(2)+' '+m.group(3))
     if 'LOAD FAILED' in out: caught['load']=['type/load error']
     rows.append({"seed":name,"property":prop,"applies":True,"patch":used,"caught_by":sorted(caught),"own_check_catches":prop in caught,"constructs":caught})
